@@ -282,6 +282,8 @@ for name, inst, tags, tier in [
     ("stats_coherent_extra8_up1_b1", "identities, base allocator hands out 8 bytes more", ["b1"], "thorough"),
     ("stats_coherent_stateful_up1_b1", "identities, stateful allocator (48-byte header), up", ["b1"], "quick"),
     ("stats_coherent_stateful_down1_b1", "identities, stateful allocator, down", ["b1"], "thorough"),
+    ("stats_coherent_stateful_small_up1_b1", "identities + C12 growth rule, stateful allocator (first chunk without capacity), a 1-byte request creates chunk 2, up", ["b1"], "quick"),
+    ("stats_coherent_stateful_small_down1_b1", "same, down", ["b1"], "thorough"),
     ("stats_coherent_over_up1_b0", "identities, over-aligned allocator (64-byte header, align 32), up", ["fits"], "thorough"),
     ("stats_coherent_over_down1_b0", "identities, over-aligned allocator, down", ["fits"], "quick"),
     ("stats_any_va_up1_b0", "any_stats == stats field by field, zero-sized allocator", ["fits", "b0"], "quick"),
